@@ -114,7 +114,7 @@ CONF = {
   "rule": "the C14 session/advertisement catalogues (1..3 neighbors, every creation and Set order, explored map orders) through the real frr-k8s session manager; the FRRConfiguration captured from the config-changed callback is judged by k8sinterp (allowed prefixes sorted/unique == requested, communities and local-prefs associated with exactly the requesting prefixes, router prefixes == union, node selector, session parameters, password xor secret) and compared per neighbor and prefix with frrinterp's meaning of the FRR-mode text for the same sessions; plus every peer credential combination x BGP type x secret handling through the real passwordForSession; programs = resources judged, disagreements_checked = (neighbor, prefix) comparisons with FRR mode",
   "parts": [{"name": "main", "pkg": "internal/bgp/frrk8s", "test": "TestVerif_C15", "shards": {"quick": 16, "thorough": 16}},
             {"name": "passwords", "pkg": "speaker", "test": "TestVerif_C15pw", "shards": 1},
-            {"name": "resource", "pkg": "internal/k8s/controllers", "test": "TestVerif_C15rec", "shards": {"quick": 16, "thorough": 16}}],
+            {"name": "resource", "pkg": "internal/k8s/controllers", "test": "TestVerif_C15rec", "shards": {"quick": 16, "thorough": 16}, "budget_s": {"quick": 150, "thorough": 1200}}],
   "rewrites": {"map": ["internal/bgp/frrk8s/frrk8s.go", "internal/bgp/frr/frr.go"]},
   "assumptions": ["meaning of an FRRConfiguration as documented by the frr-k8s API (allowed prefixes, prefixesWithCommunity, prefixesWithLocalPref)", "inputs FRR mode refuses (one prefix with two local-prefs on one session) are outside the alphabet"],
  },
